@@ -182,4 +182,100 @@ theorem c04_library_handshake (c : List String) (pref : Option String) (v : Stri
     v ∈ c ∧ v ∈ supported ∧ sess = some v :=
   c04_handshake_sound c pref supported handlerDefault (by decide) v w sess h
 
+/-! ## Every conforming handler (`serverAnswerG`: the fallback version is a free choice) -/
+
+/-- The code is one member of the family: its choice is its own answer. -/
+theorem c04_code_is_instance (sup : List String) (dflt : Option String) (r : Requested) (h : sup ≠ []) :
+    serverAnswer sup dflt r = serverAnswerG sup (serverAnswer sup dflt r) r := by
+  have hm := serverAnswer_mem sup dflt r h
+  cases r with
+  | str s =>
+    by_cases hs : s ∈ sup
+    · simp [serverAnswerG, serverAnswer, candidate, hs]
+    · simp only [serverAnswerG, hs, if_false, hm, if_true]
+  | absent => simp only [serverAnswerG, hm, if_true]
+  | other => simp only [serverAnswerG, hm, if_true]
+
+/-- Whatever the choice: the answer is supported, the request is echoed iff it is supported, the
+session records the answer. -/
+theorem c04_any_choice (sup : List String) (choice : String) (r : Requested) (h : sup ≠ []) :
+    serverAnswerG sup choice r ∈ sup
+    ∧ (∀ s, r = .str s → (serverAnswerG sup choice r = s ↔ s ∈ sup))
+    ∧ (handleInitializeG sup choice r).recorded = (handleInitializeG sup choice r).answered
+    ∧ (handleInitializeG sup choice r).answered = serverAnswerG sup choice r := by
+  have hfb : (if choice ∈ sup then choice else sup.headD "") ∈ sup := by
+    split
+    · assumption
+    · exact headD_mem h
+  have hmem : serverAnswerG sup choice r ∈ sup := by
+    unfold serverAnswerG
+    split
+    · split
+      · assumption
+      · exact hfb
+    · exact hfb
+  refine ⟨hmem, ?_, rfl, rfl⟩
+  intro s hr
+  subst hr
+  constructor
+  · intro he; rwa [he] at hmem
+  · intro hs; simp [serverAnswerG, hs]
+
+/-- Sequences, whatever the choices. -/
+theorem c04_session_records_answer_seq_any_choice (sup : List String) (h : sup ≠ [])
+    (steps : List InitStepG) (st : List String) :
+    ∀ o ∈ (runInitsG sup st steps).1, o.2 = some o.1 ∧ o.1 ∈ sup := by
+  induction steps generalizing st with
+  | nil => simp [runInitsG]
+  | cons s rest ih =>
+    obtain ⟨r, carry, choice⟩ := s
+    have hm := (c04_any_choice sup choice r h).1
+    intro o ho
+    simp only [runInitsG, List.mem_cons] at ho
+    rcases ho with ho | ho
+    · subst ho
+      simp [handleInitializeG, hm]
+    · exact ih _ o ho
+
+/-- Handshake, whatever the server's choice: agreed on a version both support (recorded by the
+session), or mismatch without the notification. -/
+theorem c04_handshake_sound_any_choice (c : List String) (pref : Option String) (s : List String)
+    (choice : String) (hs : s ≠ []) :
+    (∀ v w sess, handshakeG c pref s choice = (.ok v, w, sess) → v ∈ c ∧ v ∈ s ∧ sess = some v)
+    ∧ (c ≠ [] → (∃ v, (handshakeG c pref s choice).1 = .ok v)
+        ∨ ((handshakeG c pref s choice).1 = .mismatch ∧ Ev.sent .initialized ∉ (handshakeG c pref s choice).2.1)) := by
+  constructor
+  · intro v w sess h
+    unfold handshakeG at h
+    split at h
+    · simp at h
+    · rename_i p hp
+      simp only [Prod.mk.injEq] at h
+      obtain ⟨h1, h2, h3⟩ := h
+      have hc : clientInit c pref (.version (handleInitializeG s choice (.str p)).answered) = (.ok v, w) := by
+        rw [← h1, ← h2]
+      obtain ⟨hv, ha⟩ := Verif.Lemmas.Version.clientInit_ok hc
+      simp only [Answer.version.injEq] at ha
+      have hm : (handleInitializeG s choice (.str p)).answered ∈ s := (c04_any_choice s choice (.str p) hs).1
+      refine ⟨hv, ha ▸ hm, ?_⟩
+      rw [← h3]
+      exact congrArg some ha
+  · intro hc
+    obtain ⟨p, hp⟩ := proposed_isSome pref hc
+    unfold handshakeG
+    rw [hp]
+    simp only []
+    generalize (handleInitializeG s choice (.str p)).answered = a
+    unfold clientInit
+    rw [hp]
+    simp only []
+    split
+    · left; exact ⟨a, rfl⟩
+    · right; simp
+
+example : serverAnswerG ["2025-06-18", "2024-11-05"] "2024-11-05" (.str "1999-01-01") = "2024-11-05"
+    ∧ serverAnswerG ["2025-06-18", "2024-11-05"] "1999-01-01" (.str "1999-01-01") = "2025-06-18"
+    ∧ serverAnswerG ["2025-06-18", "2024-11-05"] "2025-06-18" (.str "2024-11-05") = "2024-11-05"
+    ∧ serverAnswerG ["2025-06-18", "2024-11-05"] "garbage" .other = "2025-06-18" := by decide
+
 end Verif.Props.C04
